@@ -255,6 +255,9 @@ def _note_parts(tier):
     out.append(("gaps_divs16", lambda: G.build_part("P", 16, notes=[("a", 3, 21, "C", None, 4, 1, 1), ("b", 40, 50, "D", None, 4, 1, 1), ("c", 100, 27, "E", None, 4, 1, 1)], measures="auto")))
     out.append(("divisions_change_at_barline_under_held_note", lambda: G.build_part("P", 4, quarter_changes=[(16, 8)], notes=[("a", 12, 20, "C", None, 4, 1, 1), ("b", 0, 12, "E", None, 4, 1, 1), ("c", 32, 16, "G", None, 4, 1, 1)],
                                                                                        measures=[(0, 16), (16, 48)])))
+    # a voice entering after a silence whose length is not one notated value (5 sixteenths; 17 thirty-seconds)
+    out.append(("voice_enters_after_a_composite_silence", lambda: G.build_part("P", 8, notes=[("a", 10, 22, "C", None, 4, 1, 1), ("b", 32, 32, "D", None, 4, 1, 1), ("c", 81, 15, "E", None, 4, 1, 1), ("lo", 0, 96, "C", None, 3, 2, 1)],
+                                                                              measures=[(0, 32), (32, 64), (64, 96)])))
     # a grace note that is not linked to its main note (grace_next unset) although a note of its voice starts at its onset
     out.append(("unlinked_grace_note_before_a_note_of_its_voice", lambda: G.build_part("P", 4, notes=[("a", 0, 8, "C", None, 4, 1, 1), ("b", 8, 8, "D", None, 4, 1, 1), ("c", 16, 16, "E", None, 4, 1, 1)],
                                                                                         graces=[("g0", 8, "E", None, 5, 1, 1, None)], measures="auto")))
@@ -294,6 +297,19 @@ def bounded(b):
         nums = [m.number for m in sorted(part.iter_all(sc.Measure), key=lambda m: m.start.t)]
         b.case("add_measures/numbers_consecutive", nums == list(range(1, len(nums) + 1)), case, "measure numbers %r" % nums)
     for name, mk in _note_parts(b.tier):
+        # reading the estimated notation of the notes and THEN changing the divisions: the notation in force follows the new divisions
+        part = mk()
+        case = {"part": name, "op": "read_symbolic_durations_then_double_the_divisions"}
+        if len(part._quarter_durations) == 1:
+            first = {n.id: (dict(n.symbolic_duration) if isinstance(n.symbolic_duration, dict) else n.symbolic_duration) for n in part.iter_all(sc.GenericNote, include_subclasses=True)}
+            ok, _ = b.guard("normalise/no_exception", case, lambda: part.set_quarter_duration(0, 2 * int(part._quarter_durations[0])))
+            if ok:
+                good, what = True, ""
+                for n in part.iter_all(sc.GenericNote, include_subclasses=True):
+                    sd = n.symbolic_duration
+                    if sd and n.duration and isinstance(sd, dict) and sd.get("type") and _numeric(sd, n.start.quarter) != n.duration:
+                        good, what = False, "note %s duration %d but symbolic %r = %s under %d divisions (read as %r before the change)" % (n.id, n.duration, sd, _numeric(sd, n.start.quarter), n.start.quarter, first.get(n.id))
+                b.case("normalise/assigned_symbolic_durations_evaluate_to_numeric", good, case, what)
         for op_name in ("tie_notes", "find_tuplets", "fill_rests", "sanitize_part", "tie_then_tuplets"):
             case = {"part": name, "op": op_name}
             part = mk()
